@@ -745,13 +745,14 @@ Definition sub_topup (s : chain) (creator owner : Z) (locks : list (Z * Z)) : op
       end
   end.
 
-(* keeper/balance.go withdrawUnlocked: min(available, unlocked so far, bank balance) *)
+(* keeper/balance.go withdrawUnlocked + accsummary.go WithdrawableUnlockedBalance:
+   min(available, max(0, unlocked so far - already withdrawn), bank balance) *)
 Definition unlocked_total (now : Z) (x : subacc) : Z := zsum (map snd (filter (fun l => fst l <? now) (sa_locks x))).
 Definition sub_withdraw_unlocked (s : chain) (owner : Z) : option chain :=
   match sub_by_owner (c_subs s) owner with
   | None => None
   | Some x =>
-      let w := Z.min (Z.min (sub_available x) (unlocked_total (c_now s) x)) (bget (c_bank s) (sub_addr x)) in
+      let w := Z.min (Z.min (sub_available x) (zmax0 (unlocked_total (c_now s) x - sa_wd x))) (bget (c_bank s) (sub_addr x)) in
       if w =? 0 then None else
       match sub_withdraw x w with
       | None => None
